@@ -103,6 +103,25 @@ fn main() {
                 oracle.push(format!("workers-{w}-commit-differently"));
             }
         }
+        // history independence: the same tick on a long-lived engine that already committed a tick (first the read-heavy
+        // prefix of this very candidate set, then the set itself) vs a fresh engine on the same pre-tick state
+        for warm in [&enq[..enq.len() / 2], &enq[..]] {
+            if warm.is_empty() {
+                continue;
+            }
+            for kind in [SchedulerKind::Radix, SchedulerKind::Legacy] {
+                if let Some((long_lived, fresh)) = run_warm_then(&g, kind, 1, warm, &enq) {
+                    runs += 3;
+                    if sans_commit(&long_lived.result) != sans_commit(&fresh.result)
+                        || long_lived.receipt != fresh.receipt
+                        || long_lived.post_dump != fresh.post_dump
+                        || long_lived.post_root != fresh.post_root
+                    {
+                        oracle.push(format!("outcome-depends-on-earlier-ticks-of-the-engine:{kind:?}"));
+                    }
+                }
+            }
+        }
         let blk: Vec<String> = base.receipt.iter().map(|e| if e.3.is_empty() { "-".to_string() } else { e.3.iter().map(|x| x.to_string()).collect::<Vec<_>>().join("+") }).collect();
         let res = match &base.result {
             Ok(l) => l.replace(' ', ","),
